@@ -50,7 +50,8 @@ Inductive event :=
                                                     active scopes whose cancel() had already been called at that moment;
                                                     sh = the task was inside ignore_cancellation / a shielded yield *)
 | EvCancel (id t : nat)                          (* the program called cancel() on the scope opened by statement id *)
-| EvResched (id t : nat) (dl : option nat).      (* ... called reschedule(dl) on it (None = math.inf) *)
+| EvResched (id t : nat) (dl : option nat)       (* ... called reschedule(dl) on it (None = math.inf) *)
+| EvActor (id t : nat).                          (* another task called cancel() on the scope opened by statement id *)
 
 Definition exn_code (e : exn) : nat := match e with ECancel _ => 1 | ETimeout => 2 | EAssert => 3 end.
 Definition oexn_code (e : option exn) : nat := match e with None => 0 | Some e => exn_code e end.
@@ -89,7 +90,8 @@ Inductive hkind :=
 | HDeliver (s : nat)          (* CancelScope.__deliver_cancellation *)
 | HDelayedCancel (m : msg)    (* CancelScope.__cancel_task_unless_done(task, msg) *)
 | HDelayedPop                 (* __delayed_task_cancel_dict.pop(task, None) *)
-| HExt.                       (* the controller's task.cancel() *)
+| HExt                        (* the controller's task.cancel() *)
+| HActor (k : nat).           (* a step of ANOTHER task that calls cancel() on the host's k-th enclosing active scope *)
 Record handle := mkH { h_id : nat; h_kind : hkind; h_canc : bool }.
 Record timer := mkT { tm_when : nat; tm_h : handle }.
 
@@ -127,7 +129,7 @@ Record state := mkState {
   iter : nat;
   spin : nat;
   spinK : nat;
-  ctrl : list (nat * bool);
+  ctrl : list (nat * bool * nat);
   trace : list event;
   g_ext : nat;
   g_leak : nat;
@@ -176,7 +178,7 @@ Definition set_spin (st : state) (v : nat) : state :=
   {| time := time st; ready := ready st; heap := heap st; nexth := nexth st; futs := futs st; scopes := scopes st; sstack := sstack st; t_waiter := t_waiter st; t_must := t_must st; t_msg := t_msg st; t_cnt := t_cnt st; delayed := delayed st; md := md st; frames := frames st; todo := todo st; iter := iter st; spin := v; spinK := spinK st; ctrl := ctrl st; trace := trace st; g_ext := g_ext st; g_leak := g_leak st; g_floor := g_floor st; g_abort := g_abort st; fixF := fixF st; fallbackF := fallbackF st; g_late := g_late st; g_shbroken := g_shbroken st; g_owed := g_owed st; g_lost := g_lost st |}.
 Definition set_spinK (st : state) (v : nat) : state :=
   {| time := time st; ready := ready st; heap := heap st; nexth := nexth st; futs := futs st; scopes := scopes st; sstack := sstack st; t_waiter := t_waiter st; t_must := t_must st; t_msg := t_msg st; t_cnt := t_cnt st; delayed := delayed st; md := md st; frames := frames st; todo := todo st; iter := iter st; spin := spin st; spinK := v; ctrl := ctrl st; trace := trace st; g_ext := g_ext st; g_leak := g_leak st; g_floor := g_floor st; g_abort := g_abort st; fixF := fixF st; fallbackF := fallbackF st; g_late := g_late st; g_shbroken := g_shbroken st; g_owed := g_owed st; g_lost := g_lost st |}.
-Definition set_ctrl (st : state) (v : list (nat * bool)) : state :=
+Definition set_ctrl (st : state) (v : list (nat * bool * nat)) : state :=
   {| time := time st; ready := ready st; heap := heap st; nexth := nexth st; futs := futs st; scopes := scopes st; sstack := sstack st; t_waiter := t_waiter st; t_must := t_must st; t_msg := t_msg st; t_cnt := t_cnt st; delayed := delayed st; md := md st; frames := frames st; todo := todo st; iter := iter st; spin := spin st; spinK := spinK st; ctrl := v; trace := trace st; g_ext := g_ext st; g_leak := g_leak st; g_floor := g_floor st; g_abort := g_abort st; fixF := fixF st; fallbackF := fallbackF st; g_late := g_late st; g_shbroken := g_shbroken st; g_owed := g_owed st; g_lost := g_lost st |}.
 Definition set_trace (st : state) (v : list event) : state :=
   {| time := time st; ready := ready st; heap := heap st; nexth := nexth st; futs := futs st; scopes := scopes st; sstack := sstack st; t_waiter := t_waiter st; t_must := t_must st; t_msg := t_msg st; t_cnt := t_cnt st; delayed := delayed st; md := md st; frames := frames st; todo := todo st; iter := iter st; spin := spin st; spinK := spinK st; ctrl := ctrl st; trace := v; g_ext := g_ext st; g_leak := g_leak st; g_floor := g_floor st; g_abort := g_abort st; fixF := fixF st; fallbackF := fallbackF st; g_late := g_late st; g_shbroken := g_shbroken st; g_owed := g_owed st; g_lost := g_lost st |}.
@@ -790,6 +792,12 @@ Definition run_handle (st : state) (k : hkind) : state :=
   | HDelayedCancel m => if task_done st then st else task_cancel (task_uncancel st) m
   | HDelayedPop => set_delayed st None
   | HExt => if task_done st then st else task_cancel (note_ext st) None
+  | HActor k =>
+      (* asyncio.current_task() is that other task: neither None nor the host task *)
+      match nth_scope st k with
+      | Some sid => emit (scope_cancel st sid) (EvActor (scope_node (frames st) sid) (time st))
+      | None => st
+      end
   end.
 
 (* ================= BaseEventLoop._run_once ================= *)
@@ -820,12 +828,12 @@ Fixpoint move_due (fuel : nat) (now : nat) (hp : list timer) (rd : list handle) 
       end
   end.
 
-Fixpoint inject (it : nat) (c : list (nat * bool)) (rd : list handle) (nh : nat) : list handle * nat :=
+Fixpoint inject (it : nat) (c : list (nat * bool * nat)) (rd : list handle) (nh : nat) : list handle * nat :=
   match c with
   | [] => (rd, nh)
-  | (n, front) :: c' =>
+  | (n, front, act) :: c' =>
       if Nat.eqb n it then
-        let h := mkH nh HExt false in
+        let h := mkH nh (match act with 0 => HExt | S k => HActor k end) false in
         inject it c' (if front then h :: rd else rd ++ [h]) (S nh)
       else inject it c' rd nh
   end.
@@ -898,7 +906,7 @@ Fixpoint push_timers (ts : list nat) (st : state) : state :=
   end.
 
 (* loop.create_task(program()); controller timers call_at(t, task.cancel) registered right after, in order *)
-Definition init (fx fb : bool) (p : prog) (timers : list nat) (turns : list (nat * bool)) (k : nat) : state :=
+Definition init (fx fb : bool) (p : prog) (timers : list nat) (turns : list (nat * bool * nat)) (k : nat) : state :=
   let st := mkState 0 [mkH 0 HStep false] [] 1 [] [] [] None false None 0 None MLoop [FStart p] 0 0 0 k turns []
                     0 0 0 false fx fb false false false false in
   push_timers timers st.
